@@ -140,7 +140,14 @@ fn instantiate_grid(r: &mut Runner) {
     for sub in ["umilkTIA", "abcd", "stTIAx"] {
         let mut k = K::k0();
         k.subdenom = sub.into();
-        let mut w = World::new(&k).expect("instantiate");
+        let mut w = match World::new(&k) {
+            Ok(w) => w,
+            Err(e) => {
+                n += 1;
+                viols.push((viol("C19", "instantiate.create_denom", format!("instantiate with sub-denom {sub} does not go through on the {} chain: {e}", if MINIWASM { "miniwasm" } else { "osmosis" })), json!({"subdenom": sub})));
+                continue;
+            }
+        };
         // World::new discards the instantiate trace: re-run it on an empty store
         w.kv = Default::default();
         w.factory.clear();
